@@ -261,7 +261,8 @@ class QpointsPhonon:
             else:
                 dm = self._get_dynamical_matrix(q)
             if self._with_dynamical_matrices:
-                dynamical_matrices.append(dm)
+                # dm can be a view of the buffer reused for eigenvectors.
+                dynamical_matrices.append(np.array(dm))
             if self._with_eigenvectors:
                 eigvals, eigvecs = np.linalg.eigh(dm)
                 eigenvectors[i] = eigvecs
